@@ -43,7 +43,14 @@ def one_tree(rng, tid, shape=None):
     for _ in range(n):
         lab = rng.choice(LABEL_POOL)
         labels.append(None if lab is None else [ord(c) for c in lab])
+    def some(prob):
+        out = []
+        for _ in range(n):
+            lab = rng.choice([x for x in LABEL_POOL if x]) if rng.random() < prob else None
+            out.append(None if lab is None else [ord(c) for c in lab])
+        return out
     return {"tid": tid, "pure": rng.random() < 0.3, "pre": rng.random() < 0.3,
+            "tlabel": some(0.25), "glabel": some(0.15),
             "kind": kind, "parent": parent, "req": req,
             "crit": [rng.random() < 0.5 for _ in range(n)],
             "forever": [rng.random() < 0.3 for _ in range(n)], "label": labels, "hash": perm}
@@ -59,8 +66,15 @@ def trees(tier, seed):
     count = 1500 if tier == "quick" else 30000
     out = []
     for i in range(count):
-        shape = mktree(SHAPES[i % len(SHAPES)]) if i % 5 == 0 else None
-        out.append(one_tree(rng, i + 1, shape))
+        shape = mktree(SHAPES[i % len(SHAPES)]) if i % 12 == 0 else None
+        tree = one_tree(rng, i + 1, shape)
+        # most random trees that fall under known finding K1 are drawn again: a few are kept
+        # so that the finding stays exercised, the rest of the budget goes to real checking
+        tries = 0
+        while shape is None and has_k1_shape(tree) and rng.random() < 0.85 and tries < 20:
+            tree = one_tree(rng, i + 1, None)
+            tries += 1
+        out.append(tree)
     return out
 
 
@@ -103,6 +117,8 @@ def observe(rec):
     case_tree = {"n": n, "kind": tree["kind"], "parent": tree["parent"], "req": tree["req"],
                  "crit": tree["crit"], "forever": tree["forever"],
                  "label": [[-1] if lab is None else lab for lab in tree["label"]],
+                 "tlabel": [[-1] if lab is None else lab for lab in (tree.get("tlabel") or [None] * n)],
+                 "glabel": [[-1] if lab is None else lab for lab in (tree.get("glabel") or [None] * n)],
                  "rid": rec["rid"], "ridcps": [cps(r) for r in rec["rid"]], "rid2": rec["rid2"]}
     obs = {"nodes": [], "clusters": [], "edges": []}
     status = "ok"
